@@ -571,7 +571,7 @@ SawCurrent(c, paths) ==
 ImplicitAndDepfileTrigger ==
   GoodEnd => LET R == Reach(last.tg) IN
              Untampered(R) =>
-               \A c \in R : (~C(c).phony /\ ~C(c).regen) =>
+               \A c \in R : (~C(c).phony /\ ~C(c).gen) =>        \* generator commands are trusted on timestamps alone
                   SawCurrent(c, Range(C(c).imp) \cup (IF C(c).dep THEN Range(C(c).reads) ELSE {}) \cup Range(C(c).ins))
 
 (* ... and ran with the current command line *)
